@@ -116,7 +116,7 @@ def fault_table(seed):
     V, W, Z = POOL_IDS[seed % len(POOL_IDS)]
     F = []
 
-    def add(name, group, snip, fixed, family=None, ctx="any", forbid=(), base=True, spaceb=True):
+    def add(name, group, snip, fixed, family=None, ctx="any", forbid=(), base=True, spaceb=True, variant=False):
         body = snip.replace(A, "").replace(B, "").replace(ALT, "")
         first = snip.split("\n")[0].replace(A, "").replace(B, "").replace(ALT, "")
         cline = [l for l in snip.split("\n") if A in l][0]
@@ -133,6 +133,7 @@ def fault_table(seed):
                 "forbid": tuple(forbid),
                 "base": base,
                 "spaceb": spaceb,
+                "variant": variant,  # a layout variant of a class planted elsewhere: thinner crossing in the quick tier
             }
         )
         assert A in snip and body != fixed, name
@@ -165,6 +166,20 @@ def fault_table(seed):
         "filter_after_newline", "py", A + "${" + V + " |\n " + B + "h +* u}", "${" + V + " |\n h}",
         family="filter-list-on-later-line",
     )
+    # ---- the closing brace is on a later line than the end of the filter list (1 or 2 line breaks, with and without
+    # indentation), for a filter list that starts on the "${" line / on the next line / after the "|" / after a
+    # multi-line expression, with the fault on the first or the second line of the filter list
+    fstarts = (
+        ("sameline", "${" + V + " | "), ("nextline", "${" + V + "\n | "), ("afterbar", "${" + V + " |\n "),
+        ("mlexpr", "${(" + V + ",\n " + W + ") | "),
+    )
+    fbodies = (("l1", B + "h +* u", "h, u"), ("l2", "h,\n" + B + "+* u", "h,\nu"))  # a 2nd line of a filter list cannot be indented
+    fcloses = (("nl", "\n}"), ("nl_indent", "\n  }"), ("nl2", "\n\n}"), ("nl2_indent", "\n \n\t}"))
+    for sname, start in fstarts:
+        for bname, fbody, ffixed in fbodies:
+            for cname, close in fcloses:
+                add("filter_%s_%s_close_%s" % (sname, bname, cname), "py", A + start + fbody + close, start + ffixed + close,
+                    variant=True, spaceb=(sname, bname, cname) in (("sameline", "l1", "nl"), ("nextline", "l2", "nl2_indent")))
     # ---- control lines
     add("if", "py", A + "% if " + B + V + " +* 1:\n% endif", "% if " + V + " + 1:\n% endif")
     add("if_nospace", "py", A + "%if " + B + V + " +* 1:\n%endif", "%if " + V + " + 1:\n%endif")
@@ -228,7 +243,7 @@ def fault_table(seed):
     )
     for bname, opener, body, fixed_body in bodies:
         for gname, gap in gaps:
-            add(bname + "_gap_" + gname, "py", A + opener + gap + body, opener + gap + fixed_body,
+            add(bname + "_gap_" + gname, "py", A + opener + gap + body, opener + gap + fixed_body, variant=True,
                 spaceb=(bname, gname) in (("py_own_line2", "trailsp_wsline"), ("expr_nextline", "trailtab_wslines"), ("mod_own_line2", "wsline")))
     # ---- signatures and attribute expressions
     add("def_sig", "py", A + '<%def name="f(a, ' + B + '+*b)"></%def>', '<%def name="f(a, b)"></%def>')
@@ -849,7 +864,7 @@ def run_a(tier, seed, F, sh, ns, st):
         special = layout[2].startswith("special")
         for f in F:
             for tail in tails(tier, seed):
-                if quick and tail != "" and "_gap_" in f["name"] and not special:
+                if quick and tail != "" and f["variant"] and not special:
                     continue  # quick: blank-region variants with a tail only behind the look-alike layouts
                 built = build_a(layout, f, tail, seed)
                 if built is None:
@@ -866,7 +881,7 @@ def run_a(tier, seed, F, sh, ns, st):
                 elif special:
                     html_paths = () if tail != "" else ("string", "file") if layout[1] == "\n" and layout[3] == "col1" else ("string",)
                 else:
-                    html_paths = ("string",) if tail == "" and layout[1] == "\n" and "_gap_" not in f["name"] else ()
+                    html_paths = ("string",) if tail == "" and layout[1] == "\n" and not f["variant"] else ()
                 check_doc(text, exp, PATHS, html_paths, st, "A", light_paths=("lookup", "moddir") if quick else ())
                 if len(seen) % 499 == 1:
                     st.sample({"space": "A", "fault": f["name"], "layout": list(layout), "text": text, "expect": {"lineno": exp["lineno"], "pos": exp["cols"]}})
@@ -925,7 +940,7 @@ def replay(case):
 
 
 LEVEL_TEXT = (
-    "Every one of 199 planted fault constructs (all classes of the statement, with line variants, incl. not-strictly-empty blank regions after <% <%! ${) is compiled behind each of 72 layout prefixes "
+    "Every one of 231 planted fault constructs (all classes of the statement, with line variants, incl. not-strictly-empty blank regions after <% <%! ${ and a closing brace on a later line than the filter list) is compiled behind each of 72 layout prefixes "
     "plus 21 (54 thorough) prefixes whose text holds a line-break look-alike (FF, VT, FS, NEL, LS, PS, lone CR), "
     "2-3 tails and through all four construction paths, and at every node boundary of every template program of weight <= 2 over 13 node kinds "
     "(<= 3 over 14 kinds thorough; 23 core faults one weight deeper over 6 resp. 9 kinds); class, filename, source, lineno, pos, RichTraceback, text and html error templates and path agreement are "
